@@ -59,7 +59,8 @@ contract('IOManager._read_packet_from_device',
          props=['C03', 'C11', 'C06', 'C12'],
          requires=['G.rpos >= 0 and G.rpos <= len(G.dev)', ('C06', 'transport-owned', 'G.held_transport')],
          modifies=['G.rpos', 'G.now', 'G.cpu'],
-         ensures=[('C03', 'known-command', 'unle32(G.dev[old(G.rpos):old(G.rpos) + 4]) in WIRE_TO_ID'),
+         ensures=[('C03', 'cursor-within-stream', 'G.rpos >= old(G.rpos) + 24 and G.rpos <= len(G.dev)'),
+                  ('C03', 'known-command', 'unle32(G.dev[old(G.rpos):old(G.rpos) + 4]) in WIRE_TO_ID'),
                   ('C03', 'command', 'result[0] == WIRE_TO_ID[unle32(G.dev[old(G.rpos):old(G.rpos) + 4])]'),
                   ('C03', 'args', 'result[1] == unle32(G.dev[old(G.rpos) + 4:old(G.rpos) + 8]) and result[2] == unle32(G.dev[old(G.rpos) + 8:old(G.rpos) + 12])'),
                   ('C03', 'payload', 'result[3] == G.dev[old(G.rpos) + 24:old(G.rpos) + 24 + unle32(G.dev[old(G.rpos) + 12:old(G.rpos) + 16])]'),
@@ -71,13 +72,13 @@ contract('IOManager._read_packet_from_device',
                   ('C11', 'duration', 'implies(%s, G.now - old(G.now) <= 2 * (%s + %s) + %s)' % (TNN, R, T, CPU)),
                   ('C11', 'clock-monotone', 'G.now >= old(G.now) and G.cpu >= old(G.cpu)')],
          raises={'InvalidCommandError': [('C03', 'unknown-command-only', 'unle32(G.dev[old(G.rpos):old(G.rpos) + 4]) not in WIRE_TO_ID'),
-                                         'G.now >= old(G.now) and G.cpu >= old(G.cpu)',
+                                         'G.now >= old(G.now) and G.cpu >= old(G.cpu)', 'G.rpos >= old(G.rpos) and G.rpos <= len(G.dev)',
                                          ('C11', 'duration', 'implies(%s, G.now - old(G.now) <= 2 * (%s + %s) + %s)' % (TNN, R, T, CPU))],
                  'InvalidChecksumError': [('C03', 'mismatch-only',
                                            'unle32(G.dev[old(G.rpos) + 12:old(G.rpos) + 16]) > 0 and '
                                            'bsum(G.dev[old(G.rpos) + 24:old(G.rpos) + 24 + unle32(G.dev[old(G.rpos) + 12:old(G.rpos) + 16])]) % 2**32'
                                            ' != unle32(G.dev[old(G.rpos) + 16:old(G.rpos) + 20])'),
-                                          'G.now >= old(G.now) and G.cpu >= old(G.cpu)',
+                                          'G.now >= old(G.now) and G.cpu >= old(G.cpu)', 'G.rpos >= old(G.rpos) and G.rpos <= len(G.dev)',
                                           ('C11', 'duration', 'implies(%s, G.now - old(G.now) <= 2 * (%s + %s) + %s)' % (TNN, R, T, CPU))],
                  'AdbTimeoutError': [('C11', 'duration', 'implies(%s, G.now - old(G.now) <= 2 * (%s + %s) + %s)' % (TNN, R, T, CPU)),
                                      ('C11', 'timeout-only-after-deadline', 'G.now - old(G.now) > adb_info.read_timeout_s'),
@@ -107,3 +108,130 @@ contract('IOManager._send',
                        'G.now >= old(G.now) and G.cpu >= old(G.cpu)']},
          call_asserts={'Transport.bulk_write': [('C11', 'timeout-passed', 'same(_arg_transport_timeout_s, adb_info.transport_timeout_s)')]},
          doc='header then payload, payload write omitted iff empty; the peer receives the whole frame or the call raises')
+
+
+# ---------------------------------------------------------------------------------------------------------------------
+# read / send / close / _read_expected_packet_from_device
+
+STORE = 'self._packet_store'
+LID = 'val(adb_info.local_id)'
+REM = 'adb_info.remote_id'
+
+
+def PEND(store):
+    base = 'exists_pending(%s, %s, %s)' % (store, REM, LID)
+    z = '(allow_zeros and (exists_pending(%s, %s, 0) or exists_pending(%s, 0, %s) or exists_pending(%s, 0, 0)))' % (store, REM, store, LID, store)
+    return '(%s or %s)' % (base, z)
+
+
+def KEYMATCH(k0, k1):
+    return ('(matches_pat({0}, {1}, {2}, {3}) or (allow_zeros and (matches_pat({0}, {1}, {2}, 0) or matches_pat({0}, {1}, 0, {3}) '
+            'or matches_pat({0}, {1}, 0, 0))))').format(k0, k1, REM, LID)
+
+
+def MATCH(a0, a1):
+    return ('(({1} == {3} or (allow_zeros and {1} == 0)) and (isnone({2}) or {0} == val({2}) or (allow_zeros and {0} == 0)))'
+            ).format(a0, a1, REM, LID)
+
+
+STORE_LOOP_INV = [
+    ('C06,C01,C11', 'iff(isnone(arg0_arg1), not %s)' % PEND(STORE)),
+    ('C06,C01,C11', 'implies(not isnone(arg0_arg1), pending(%s, val(arg0_arg1)[0], val(arg0_arg1)[1]) and %s)'
+     % (STORE, KEYMATCH('val(arg0_arg1)[0]', 'val(arg0_arg1)[1]'))),
+]
+DUR3 = 'implies(%s, G.now - old(G.now) <= 3 * %s + 2 * %s + %s)' % (TNN, R, T, CPU)
+MONO = 'G.now >= old(G.now) and G.cpu >= old(G.cpu) and G.rpos >= old(G.rpos) and G.rpos <= len(G.dev)'
+UNLOCKED = 'not G.held_transport and not G.held_store and not G.held_local_id'
+STORE_OWNED = [('C06', 'store-owned', 'G.held_store')]
+
+contract('IOManager.read',
+         real=real('read'),
+         params={'self': 'obj:IOManager', 'expected_cmds': 'cmdset', 'adb_info': 'obj:AdbInfo', 'allow_zeros': 'bool'},
+         returns='tuple[bytes,int,int,bytes]',
+         props=['C06', 'C01', 'C11', 'C12', 'C10'],
+         requires=['not isnone(adb_info.local_id)', 'G.rpos >= 0 and G.rpos <= len(G.dev)',
+                   ('C06,C12', 'no-lock-held-on-entry', UNLOCKED)],
+         modifies=['G.rpos', 'G.now', 'G.cpu', 'G.di', 'self._packet_store._dict'],
+         ghost_exit=[('G.di', 'store(G.di, %s, G.di[%s] + 1)' % (LID, LID))],
+         defines=['result == (D_cmd({0}, old(G.di)[{0}]), D_a0({0}, old(G.di)[{0}]), D_a1({0}, old(G.di)[{0}]), D_data({0}, old(G.di)[{0}]))'.format(LID)],
+         ensures=[('C01,C06,C10', 'command-is-expected', 'result[0] in expected_cmds'),
+                  ('C01,C06', 'packet-belongs-to-this-stream', MATCH('result[1]', 'result[2]')),
+                  ('C06,C12', 'locks-released', UNLOCKED),
+                  ('C11', 'duration', DUR3),
+                  ('C11,C06', 'monotone', MONO)],
+         raises={'AdbTimeoutError': [('C06,C12', 'locks-released', UNLOCKED), ('C11', 'duration', DUR3), MONO,
+                                     ('C11', 'timeout-only-after-deadline', 'G.now - old(G.now) > adb_info.read_timeout_s')],
+                 'InvalidCommandError': [('C06,C12', 'locks-released', UNLOCKED), ('C11', 'duration', DUR3), MONO],
+                 'InvalidChecksumError': [('C06,C12', 'locks-released', UNLOCKED), ('C11', 'duration', DUR3), MONO],
+                 '*': [('C06,C12', 'locks-released', UNLOCKED), ('C11', 'duration', DUR3), MONO]},
+         at_return={0: [('C06', 'fifo-from-matching-key', MATCH('result[1]', 'result[2]'))],
+                    1: [('C06', 'fifo-from-matching-key', MATCH('result[1]', 'result[2]'))],
+                    2: [('C06', 'direct-delivery-only-when-nothing-parked', 'not ' + PEND(STORE))]},
+         call_asserts={
+             'Store.find': STORE_OWNED, 'Store.find_allow_zeros': STORE_OWNED, 'Store.get': STORE_OWNED,
+             'Store.put': STORE_OWNED + [('C06', 'parks-the-foreign-packet-unchanged-under-its-own-key',
+                                          '_arg_arg0 == arg0 and _arg_arg1 == arg1 and _arg_cmd == cmd and _arg_data == data and not '
+                                          + MATCH('arg0', 'arg1'))],
+             'Store.clear': STORE_OWNED + [('C06', 'forgets-only-own-closed-stream',
+                                            '_arg_arg0 == arg0 and _arg_arg1 == arg1 and cmd == CLSE and ' + MATCH('arg0', 'arg1'))]},
+         loops={0: dict(invariant=STORE_LOOP_INV + ['G.now == old(G.now) and G.cpu == old(G.cpu) and G.rpos == old(G.rpos)']),
+                1: dict(invariant=[('C06,C11,C12', UNLOCKED),
+                                   ('C11,C06', 'G.rpos >= old(G.rpos) and G.rpos <= len(G.dev) and G.rpos >= 0'),
+                                   ('C11', 'G.now - start <= %s and G.now >= start and start >= old(G.now)' % R),
+                                   ('C11', 'start - old(G.now) <= G.cpu - old(G.cpu) and G.cpu >= old(G.cpu)')]),
+                2: dict(invariant=STORE_LOOP_INV)},
+         doc='the next packet for this stream: parked packets first (FIFO per key), then the wire; foreign packets are parked, '
+             'matching packets with an unexpected command are consumed and discarded')
+
+contract('IOManager.send',
+         real=real('send'),
+         params={'self': 'obj:IOManager', 'msg': 'obj:Msg', 'adb_info': 'obj:AdbInfo'},
+         props=['C02', 'C15', 'C11', 'C06', 'C12', 'C04'],
+         requires=[WF_MSG, ('C06,C12', 'no-lock-held-on-entry', UNLOCKED)],
+         modifies=['G.wire', 'G.nwrites', 'G.peer_rx', 'G.short', 'G.now', 'G.cpu'],
+         ensures=[('C02,C04', 'one-frame', 'G.wire == old(G.wire) + ' + FRAME),
+                  ('C15', 'peer-receives-whole-message', 'G.peer_rx == old(G.peer_rx) + ' + FRAME),
+                  ('C06,C12', 'locks-released', UNLOCKED),
+                  ('C11', 'duration', 'implies(%s, G.now - old(G.now) <= 2 * %s + %s)' % (TNN, T, CPU)),
+                  'G.now >= old(G.now) and G.cpu >= old(G.cpu)'],
+         raises={'struct.error': [('C02', 'unframeable-writes-nothing', 'G.wire == old(G.wire)'), ('C06,C12', 'locks-released', UNLOCKED),
+                                  'G.now >= old(G.now) and G.cpu >= old(G.cpu)'],
+                 '*': [('C06,C12', 'locks-released', UNLOCKED),
+                       ('C11', 'duration', 'implies(%s, G.now - old(G.now) <= 2 * %s + %s)' % (TNN, T, CPU)),
+                       'G.now >= old(G.now) and G.cpu >= old(G.cpu)']})
+
+contract('IOManager.close',
+         real=real('close'),
+         params={'self': 'obj:IOManager'},
+         props=['C12', 'C06', 'C19'],
+         requires=[('C06,C12', 'no-lock-held-on-entry', UNLOCKED)],
+         modifies=['G.topen', 'G.now', 'self._packet_store._dict'],
+         ensures=[('C12', 'transport-closed', 'not G.topen'), ('C12', 'store-cleared', 'none_present(self._packet_store)'),
+                  ('C06,C12', 'locks-released', UNLOCKED)],
+         raises={'*': [('C06,C12', 'locks-released', UNLOCKED)]},
+         call_asserts={'Store.clear_all': STORE_OWNED})
+
+HS = '(0 - 1)'      # pseudo stream id of the connection handshake in the delivered log
+DUR_E = 'implies(%s, G.now - old(G.now) <= 3 * %s + 2 * %s + %s)' % (TNN, R, T, CPU)
+
+contract('IOManager._read_expected_packet_from_device',
+         real=real('_read_expected_packet_from_device'),
+         params={'self': 'obj:IOManager', 'expected_cmds': 'cmdset', 'adb_info': 'obj:AdbInfo'},
+         returns='tuple[bytes,int,int,bytes]',
+         props=['C05', 'C11', 'C12', 'C06'],
+         requires=['G.rpos >= 0 and G.rpos <= len(G.dev)', ('C06', 'transport-owned', 'G.held_transport')],
+         modifies=['G.rpos', 'G.now', 'G.cpu', 'G.di'],
+         ghost_exit=[('G.di', 'store(G.di, %s, G.di[%s] + 1)' % (HS, HS))],
+         defines=['result == (D_cmd({0}, old(G.di)[{0}]), D_a0({0}, old(G.di)[{0}]), D_a1({0}, old(G.di)[{0}]), D_data({0}, old(G.di)[{0}]))'.format(HS)],
+         ensures=[('C05', 'command-is-expected', 'result[0] in expected_cmds'),
+                  ('C11', 'duration', DUR_E), MONO,
+                  'result[1] >= 0 and result[1] < 2**32 and result[2] >= 0 and result[2] < 2**32'],
+         raises={'AdbTimeoutError': [('C11', 'duration', DUR_E), MONO,
+                                     ('C11', 'timeout-only-after-deadline', 'G.now - old(G.now) > adb_info.read_timeout_s')],
+                 'InvalidCommandError': [('C11', 'duration', DUR_E), MONO],
+                 'InvalidChecksumError': [('C11', 'duration', DUR_E), MONO],
+                 '*': [('C11', 'duration', DUR_E), MONO]},
+         loops={0: dict(invariant=[('C05,C11', 'G.rpos >= old(G.rpos) and G.rpos <= len(G.dev) and G.rpos >= 0 and G.held_transport'),
+                                   ('C11', 'G.now - start <= %s and G.now >= start and start >= old(G.now)' % R),
+                                   ('C11', 'start - old(G.now) <= G.cpu - old(G.cpu) and G.cpu >= old(G.cpu)')])},
+         doc='the next device packet whose command is expected; strays before it are skipped; bounded by the read deadline')
